@@ -8,6 +8,7 @@
 -/
 import PolyVerif.Lemmas.MeshWF
 import PolyVerif.Lemmas.MeshWF3
+import PolyVerif.Lemmas.MeshTransformsWF
 import PolyVerif.Lemmas.PrimIdx
 
 namespace PolyVerif.C02
@@ -192,5 +193,89 @@ theorem repeatMesh_wf {zero : Nat → α} {pos : AttrKey} {m r : MeshVal α} (h 
 
 example : ∃ r, repeatMesh (fun _ => 0) ⟨3, "Position"⟩ sample [(· + 1), (· + 2), id] = some r ∧ r.attrLen = 15 :=
   ⟨_, rfl, by decide⟩
+
+/-! ### the concrete transforms of `Model/MeshTransforms.lean` (any scalar type `s`) -/
+
+section transforms
+open PolyVerif PolyVerif.Gen
+variable {s : Type} [Scalar s]
+
+theorem translate_wf {m m' : MeshVal (List s)} (h : WF m) {n : String} {t : V3 s}
+    (hm : m.translate n t = some m') : WF m' := MeshVal.mapAttr_wf h hm
+theorem scaleAbout_wf {m m' : MeshVal (List s)} (h : WF m) {n : String} {o a : V3 s}
+    (hm : m.scaleAbout n o a = some m') : WF m' := MeshVal.mapAttr_wf h hm
+theorem scaleMesh_wf {m m' : MeshVal (List s)} (h : WF m) {a : V3 s}
+    (hm : m.scaleMesh a = some m') : WF m' := MeshVal.mapAttr_wf h hm
+theorem rotate_wf {m m' : MeshVal (List s)} (h : WF m) {n : String} {q : quaternion.Quaternion s}
+    (hm : m.rotate n q = some m') : WF m' := MeshVal.mapAttr_wf h hm
+theorem applyTRS_wf {m m' : MeshVal (List s)} (h : WF m) {t : trs.TRS s}
+    (hm : m.applyTRS t = some m') : WF m' := MeshVal.mapAttr_wf h hm
+theorem center_wf {m m' : MeshVal (List s)} (h : WF m) {n : String}
+    (hm : m.center n = some m') : WF m' := MeshVal.center_wf h hm
+theorem normalize_wf {m m' : MeshVal (List s)} (h : WF m) {init : s} {n : String}
+    (hm : MeshVal.normalize init m n = some m') : WF m' := MeshVal.normalize_wf h hm
+theorem smoothNormals_wf {m m' : MeshVal (List s)} (h : WF m)
+    (hm : m.smoothNormals = some m') : WF m' := MeshVal.smoothNormals_wf h hm
+theorem flatNormals_wf {m m' : MeshVal (List s)} (h : WF m)
+    (hm : m.flatNormals = some m') : WF m' := MeshVal.flatNormals_wf h hm
+theorem laplacian_wf {m m' : MeshVal (List s)} (h : WF m) {n : String} {iters : Nat} {factor : s}
+    (hm : m.laplacian n iters factor = some m') : WF m' := MeshVal.laplacian_wf h hm
+
+end transforms
+
+/-! ## Any finite composition of operations -/
+
+/-- one application of a mesh operation (with arbitrary parameters) to `m` yielding `m'` -/
+inductive Step (zero : Nat → α) : MeshVal α → MeshVal α → Prop
+  | unweld (m) : Step zero m m.unweld
+  | removeUnreferenced (m) : Step zero m m.removeUnreferenced
+  | toPointCloud (m) : Step zero m m.toPointCloud
+  | flip {m m'} : m.flip = some m' → Step zero m m'
+  | setMaterials (m ms) : Step zero m (m.setMaterials ms)
+  | setIndices (m idx) : (∀ i ∈ idx, i < m.attrLen) → m.topology.Fits idx.length → Step zero m (m.setIndices idx)
+  | setAttr (m k data) : (data.length = m.attrLen ∨ m.attrs = []) → Step zero m (m.setAttr k data)
+  | modifyAttr {m m'} (k f) : (∀ d, (f d).length = d.length) → m.modifyAttr k f = some m' → Step zero m m'
+  | appendRight {m m'} (b) : WF b → append zero m b = some m' → Step zero m m'
+  | appendLeft {m m'} (a) : WF a → append zero a m = some m' → Step zero m m'
+  | filter {m m'} (k p) : m.filterAttr k p = some m' → Step zero m m'
+  | crop {m m'} (k inside) : m.crop k inside = some m' → Step zero m m'
+  | removeNullFaces {m m'} (k keep) : m.removeNullFaces k keep = some m' → Step zero m m'
+  | splitPart {m m'} (parts) : m.splitOnMaterials = some parts → m' ∈ parts → Step zero m m'
+  | weld {m m'} (K : Type) [DecidableEq K] (k) (key : α → K) : m.weld k key = some m' → Step zero m m'
+  | repeatMesh {m m'} (pos ts) : repeatMesh zero pos m ts = some m' → Step zero m m'
+
+/-- finitely many steps -/
+inductive Steps (zero : Nat → α) : MeshVal α → MeshVal α → Prop
+  | refl (m) : Steps zero m m
+  | tail {a b c} : Steps zero a b → Step zero b c → Steps zero a c
+
+theorem step_wf {zero : Nat → α} {m m' : MeshVal α} (hs : Step zero m m') (h : WF m) : WF m' := by
+  cases hs with
+  | unweld => exact unweld_wf h
+  | removeUnreferenced => exact removeUnreferenced_wf h
+  | toPointCloud => exact toPointCloud_wf h
+  | flip hf => exact flip_wf h hf
+  | setMaterials => exact h
+  | setIndices idx hi hf => exact setIndices_wf h idx hi hf
+  | setAttr k data hd => exact setAttr_wf h k data hd
+  | modifyAttr k f hf hm => exact modifyAttr_wf h hf hm
+  | appendRight b hb ha => exact append_wf h hb ha
+  | appendLeft a ha' ha => exact append_wf ha' h ha
+  | filter k p hm => exact filterAttr_wf h hm
+  | crop k i hm => exact crop_wf h hm
+  | removeNullFaces k keep hm => exact removeNullFaces_wf h hm
+  | splitPart parts hs hp => exact splitOnMaterials_wf h hs _ hp
+  | weld K k key hw => exact weld_wf h hw
+  | repeatMesh pos ts hr => exact repeatMesh_wf h ts hr
+
+/-- **C02, operations clause**: every mesh reachable from a well-formed mesh by any finite sequence
+    of (non-rejected) operations, with any parameters, is well-formed. -/
+theorem ops_closed {zero : Nat → α} {m m' : MeshVal α} (hs : Steps zero m m') (h : WF m) : WF m' := by
+  induction hs with
+  | refl => exact h
+  | tail _ hstep ih => exact step_wf hstep ih
+
+example : Steps (fun _ => 0) sample sample.unweld.removeUnreferenced.toPointCloud :=
+  .tail (.tail (.tail (.refl _) (.unweld _)) (.removeUnreferenced _)) (.toPointCloud _)
 
 end PolyVerif.C02
